@@ -10,6 +10,10 @@ pub mod serde_json {
     pub enum Value { Null, Other(ValueOpaque) }
     #[verifier::external_body]
     pub struct ValueOpaque { v: u8 }
+    impl Clone for Value {
+        #[verifier::external_body]
+        fn clone(&self) -> (r: Self) ensures r == *self { unimplemented!() }
+    }
     /// structural equality of JSON values (ASSUMED to coincide with spec equality)
     impl ::std::cmp::PartialEq for Value {
         #[verifier::external_body]
